@@ -15,4 +15,5 @@ func init() {
 		}
 		zipx.Replay(a[0], s, n)
 	})
+	register("zip-count", func(a []string) { zipx.Counts() })
 }
